@@ -68,6 +68,8 @@ Cases ==
   \cup {[call |-> "close_to", x |-> x, y |-> y, tb |-> tb, exp |-> CloseTo(x, y, tb)] :
            x \in {-16, -8, -1, 0, 1, 8, 9, 16}, y \in {-16, -8, -1, 0, 1, 8, 9, 16}, tb \in {0, 1, 3, 4, 10}}
   \cup {[call |-> "eq", x |-> x, y |-> y, exp |-> (x = y)] : x \in {-8, 0, 8, 9}, y \in {-8, 0, 8, 9}}
+  \* vectors of different length that agree on the common prefix are neither equal nor close (the empty vector included)
+  \cup {[call |-> "len_mismatch", n |-> n, m |-> m, exp |-> (n = m)] : n \in 0..4, m \in 0..4}
   \cup {[call |-> "shape_mismatch", r |-> r, c |-> c, exp |-> FALSE] : r \in {1, 2, 3, 6}, c \in {1, 2, 3, 6}}
   \cup {[call |-> "rotation", axis |-> ax, k |-> k, cw |-> RotCW(ax), ccw |-> RotCCW(ax)] :
            ax \in {"X", "Y", "Z"}, k \in (-32)..32}
